@@ -431,10 +431,59 @@ func (t *termer) load(addr ssa.Value, v ssa.Value, ctx *Ctx) *Term {
 	at := t.term(addr, ctx)
 	switch at.Op {
 	case "field", "index", "global":
+		// a field of a struct literal handed over by value (a parameter bundle): the value the
+		// caller's literal puts into that field
+		if at.Op == "field" && len(at.Args) == 1 {
+			if r := t.litFieldOfLoadedLiteral(at.Args[0], at.Name); r != nil {
+				return r
+			}
+		}
 		// the value at that path
 		return &Term{Op: at.Op, Name: at.Name, Args: at.Args, V: v, Ctx: ctx}
 	}
 	return mk("load", "", v, ctx, at)
+}
+
+// litFieldOfLoadedLiteral: base renders "*new(T:complit)" (possibly behind &…: a spilled by-value
+// parameter bound to the caller's literal); the literal's field of that label is written exactly
+// once, before the literal is loaded whole: the stored value, in the literal's own context.
+func (t *termer) litFieldOfLoadedLiteral(base *Term, label string) *Term {
+	b := base
+	for b != nil && (b.Op == "addrof" || b.Op == "conv") && len(b.Args) == 1 {
+		b = b.Args[0]
+	}
+	if b == nil || b.Op != "load" || len(b.Args) != 1 || b.Args[0].Op != "alloc" {
+		return nil
+	}
+	al, ok := b.Args[0].V.(*ssa.Alloc)
+	if !ok || al.Comment != "complit" || al.Referrers() == nil {
+		return nil
+	}
+	var vals []ssa.Value
+	for _, r := range *al.Referrers() {
+		switch x := r.(type) {
+		case *ssa.FieldAddr:
+			if fieldLabel(x.X.Type(), x.Field) != label || x.Referrers() == nil {
+				continue
+			}
+			for _, rr := range *x.Referrers() {
+				if st, ok := rr.(*ssa.Store); ok && st.Addr == ssa.Value(x) {
+					vals = append(vals, st.Val)
+				} else if _, isLd := rr.(*ssa.UnOp); !isLd {
+					if _, isDbg := rr.(*ssa.DebugRef); !isDbg {
+						return nil // the field's address is used otherwise
+					}
+				}
+			}
+		case *ssa.UnOp, *ssa.DebugRef:
+		default:
+			return nil // the literal's address escapes
+		}
+	}
+	if len(vals) != 1 {
+		return nil
+	}
+	return t.term(vals[0], b.Args[0].Ctx)
 }
 
 func (t *termer) alloc(a *ssa.Alloc, ctx *Ctx) *Term {
